@@ -141,9 +141,16 @@ def gen_case(rng):
     c = {"kind": kind, "spec": spec, "size": rng.choice([0, 1, 2, 3, 5])}
     if kind == "frame" and rng.random() < 0.5:
         # uniqueness declared at the dataframe level, or on a regex column (names generated by the strategy)
-        c["frame_variant"] = rng.choice(["frame-unique", "regex-unique"])
-        spec["unique"] = c["frame_variant"] == "regex-unique"
-        spec["nullable"] = dtype != "int64"
+        c["frame_variant"] = rng.choice(["frame-unique", "regex-unique", "frame-dtype"])
+        if c["frame_variant"] == "frame-dtype":
+            # a dataframe-level dtype overrides the columns' own (validation accepts only the dataframe-level one)
+            if dtype == "str":
+                spec["dtype"] = dtype = "int64"
+            spec["checks"], spec["nullable"], spec["unique"] = [], False, False
+            c["frame_dtype"] = "float64" if dtype == "int64" else "int64"
+        else:
+            spec["unique"] = c["frame_variant"] == "regex-unique"
+            spec["nullable"] = dtype != "int64"
         c["size"] = rng.choice([2, 3, 5])
     return c
 
@@ -163,6 +170,10 @@ def base_sweep():
                                 "spec": {"name": "a", "regex": None, "dtype": dtype, "nullable": False, "unique": False,
                                          "required": True, "coerce": False, "reportDup": "none", "checks": [chk],
                                          "default": None}})
+    for dtype, fd in (("int64", "float64"), ("float64", "int64")):
+        out.append({"kind": "frame", "size": 3, "sweep": True, "frame_variant": "frame-dtype", "frame_dtype": fd,
+                    "spec": {"name": "a", "regex": None, "dtype": dtype, "nullable": False, "unique": False, "required": True,
+                             "coerce": False, "reportDup": "none", "checks": [], "default": None}})
     for variant in ("frame-unique", "regex-unique"):
         for dtype in ("float64", "str"):
             out.append({"kind": "frame", "size": 5, "sweep": True, "frame_variant": variant,
@@ -195,6 +206,8 @@ def build(case):
     if case["kind"] == "frame-index":
         return pa.DataFrameSchema({spec["name"]: pa.Column(**kw), "zz": other},
                                   index=pa.Index(int, pa.Check.ge(0), unique=True, name="ix"))
+    if case.get("frame_variant") == "frame-dtype":
+        return pa.DataFrameSchema({spec["name"]: pa.Column(**kw)}, dtype=case["frame_dtype"])
     if case.get("frame_variant") == "frame-unique":
         return pa.DataFrameSchema({spec["name"]: pa.Column(**kw), "zz": other}, unique=[spec["name"]])
     if case.get("frame_variant") == "regex-unique":
